@@ -1161,5 +1161,34 @@ func (c *Ctx) r119() {
 		} else {
 			c.R.Unres(rule, construct, c.pos(efd), "the escaper's conditions depend on "+strings.Join(foreign, ", ")+", a value computed from the data as a whole (a position beyond which nothing is escaped, a flag): whether every `&` that can start a reference is still escaped cannot be judged — references without a semicolon (`&lt`, `&copy`) are decoded in attribute values too, so `f(a&amp;lt)` must not become `f(a&lt)`")
 		}
+		// (e) the escaper does not wait for a semicolon: the legacy names (&copy, &lt, &not, &reg …) are decoded in an attribute
+		// value without one whenever the next character is not a letter, a digit or `=`. A decision that looks for `;` is
+		// acceptable only when it is made by the standard decoder (html.UnescapeString knows the legacy names)
+		semi, decoder := false, false
+		var scan func(d *ast.FuncDecl, depth int)
+		scan = func(d *ast.FuncDecl, depth int) {
+			if d == nil || d.Body == nil {
+				return
+			}
+			if chars, _, _ := c.constsIn(pk, d.Body); chars[';'] {
+				semi = true
+			}
+			ast.Inspect(d.Body, func(z ast.Node) bool {
+				ce, ok := z.(*ast.CallExpr)
+				if !ok {
+					return true
+				}
+				if calleeName(info, ce) == "html.UnescapeString" {
+					decoder = true
+				}
+				if fo, _ := callee(info, ce).(*types.Func); fo != nil && fo.Pkg() == pk.Types && depth < 2 {
+					scan(load.Func(pk, fo.Name()), depth+1)
+				}
+				return true
+			})
+		}
+		scan(efd, 0)
+		c.R.Check(!semi || decoder, rule, "html."+load.FuncName(efd)+"/does not wait for a semicolon", c.pos(efd), "no test against ';' in the escaper and the predicates it calls (or the decision is made by html.UnescapeString)",
+			"the escaper (or a predicate it calls) looks for the `;` that closes a reference: the legacy names are decoded in attribute values without one — `onclick=\"ok&amp;&amp;copy(x)\"` is written as `ok&&copy(x)`, which the browser reads as `ok&©(x)`")
 	}
 }
